@@ -25,7 +25,7 @@
        `accepted_sides`           an input section accepted by `checkInputSection` reads as two `SideCfg`
                                   satisfying `Save.schemaOk` (C19's hypothesis `hacc`, discharged)
        `savedOfDict_mainSaved`    the adapter commutes with `main` (for both values of the facts)
-       `source_refeed_spec_of_checkConf`   C19's `specRefeed` holds of the saved configuration of every
+       (§3c) `source_refeed_spec_of_checkConf`   C19's `specRefeed` holds of the saved configuration of every
                                   accepted run — hypothesis-free
        `refeed_models_agree`      C19's abstract `refeedInput` and the dictionary `checkConf` give the
                                   same input sections for the saved file
@@ -33,7 +33,7 @@
                                   `Save.checkPipeline`), `stepCheck_idempotent` (C19's `hidem`, proved from
                                   C05's `construct_idem`), `checkPipelineSection_checkPipeline` (the real
                                   pipeline section is an instance), `saved_pipeline_fixpoint`,
-                                  `saved_pipeline_names`
+                                  `saved_pipeline_names`, `saved_pipeline_fixpoint_run` (§3b)
 -/
 import PandoraModel.Properties.C19
 import PandoraModel.Properties.C05Conf
@@ -815,6 +815,31 @@ theorem runPipeline_idem (M : Dict) : runPipeline (runPipeline M) = runPipeline 
     | _ => simp [hcvc, hv]
   · simp [hcvc]
 
+/-- a checked pipeline is a fix-point of `Save.checkPipeline stepCheck` -/
+theorem checkedPipeline_checkPipeline {o : Oracle} {fl : MachineFlags} {l r : ImgInfo} {Q : Dict}
+    (hQ : CheckedPipeline o fl l r Q) :
+    checkPipeline (stepCheck o fl l r) (stepsOf Q) = some (stepsOf Q) := by
+  obtain ⟨hw, hf, _, _, hsteps⟩ := hQ
+  apply checkPipeline_of_keys _ Q Q rfl (Merge.wfDict_keys_nodup Q hw)
+  intro n v w hP hM
+  rw [hP] at hM; cases hM
+  have hmem := Merge.mem_of_lookup Q n v hP
+  obtain ⟨kind, cfg, kd, hk, hv, hkd, hc, he⟩ := hsteps n v hmem
+  have hfix : Merge.deepRw v = v := Merge.fixedDict_mem hf hmem
+  subst hv
+  exact stepCheck_intro (Merge.wfDict_mem hw hmem) hk hfix hkd hc he
+
+/-- **the pipeline section `main` really saves (indicators written by `run`) completes to itself**, step by
+    step, in `Save.checkPipeline`'s terms -/
+theorem saved_pipeline_fixpoint_run {o : Oracle} {fl : MachineFlags} {P : Dict} {l r : ImgInfo}
+    {m m' : CState} {out : Dict} (hfresh : C05W.FreshFor fl m) (hwf : Merge.wfDict P = true)
+    (h : checkPipelineSection o fl registry [("pipeline", .obj P)] l r m = .ok (out, m')) :
+    checkPipeline (stepCheck o fl l r) (stepsOf (runPipeline m'.pipelineCfg)) =
+      some (stepsOf (runPipeline m'.pipelineCfg)) ∧
+    Dict.keys (runPipeline m'.pipelineCfg) = Dict.keys P := by
+  refine ⟨checkedPipeline_checkPipeline (runPipeline_checked (checked_of_checkPipelineSection hfresh hwf h)), ?_⟩
+  rw [runPipeline_keys, saved_pipeline_names hfresh hwf h]
+
 theorem runIndicators_shape (I : JVal) (M : Dict) :
     runIndicators [("input", I), ("pipeline", .obj M)] = [("input", I), ("pipeline", .obj (runPipeline M))] := by
   simp [runIndicators, Dict.lookup, Dict.setKey]
@@ -864,6 +889,55 @@ theorem source_saved_config_replays_run (files : Files) (user kvs P : Dict) (m m
       (mainSavedDict Pandora.Generated.mainFacts (runIndicators out) margins) m2 = .ok (runIndicators out, m2') :=
   saved_config_replays_run files machineFlags user kvs P m m' out hin hpi hnd (Or.inr (by decide)) hwf h
     Pandora.Generated.mainFacts source_main_facts.1 margins m2 (Or.inr (by decide))
+
+/-! #### for either value of the fact `runWritesIndicator` the translator reads off `state_machine.py` -/
+
+theorem afterRun_shape (w : Bool) (I : JVal) (M : Dict) :
+    afterRun w [("input", I), ("pipeline", .obj M)] = [("input", I), ("pipeline", .obj (afterRunPipeline w M))] := by
+  cases w
+  · rfl
+  · simp [afterRun, afterRunPipeline, runIndicators_shape]
+
+theorem afterRunPipeline_idem (w : Bool) (M : Dict) :
+    afterRunPipeline w (afterRunPipeline w M) = afterRunPipeline w M := by
+  cases w
+  · rfl
+  · simp [afterRunPipeline, runPipeline_idem]
+
+theorem afterRunPipeline_keys (w : Bool) (M : Dict) : Dict.keys (afterRunPipeline w M) = Dict.keys M := by
+  cases w
+  · rfl
+  · simp [afterRunPipeline, runPipeline_keys]
+
+/-- **the saved configuration completes to itself, whatever the translator found in `run`**: with
+    `w = Generated.runWritesIndicator` this is the statement about the `main` of the source -/
+theorem saved_config_replays_any (w : Bool) (files : Files) (fl : MachineFlags) (user kvs P : Dict) (m m' : CState)
+    (out : Dict) (hin : Dict.lookup user "input" = some (.obj kvs)) (hpi : Dict.lookup user "pipeline" = some (.obj P))
+    (hnd : C17W.NodupSection kvs) (hfresh : C05W.FreshFor fl m) (hwf : Merge.wfDict P = true)
+    (h : checkConf files inputSchemas fl registry user m = .ok (out, m'))
+    (facts : MainFacts) (hw : facts.writesRightDisp = false) (margins : JVal)
+    (m2 : CState) (hfresh2 : C05W.FreshFor fl m2) :
+    ∃ m2', checkConf files inputSchemas fl registry (mainSavedDict facts (afterRun w out) margins) m2 =
+      .ok (afterRun w out, m2') := by
+  cases w
+  · exact saved_config_replays files fl user kvs P m m' out hin hpi hnd hfresh hwf h facts hw margins m2 hfresh2
+  · exact saved_config_replays_run files fl user kvs P m m' out hin hpi hnd hfresh hwf h facts hw margins m2 hfresh2
+
+/-- the saved configuration of the source: `main` as regenerated (`mainFacts`), `run` as regenerated
+    (`runWritesIndicator`), `update_conf` and machine of the source (`machineFlags`) -/
+theorem source_saved_config_replays_any (files : Files) (user kvs P : Dict) (m m' : CState) (out : Dict)
+    (hin : Dict.lookup user "input" = some (.obj kvs)) (hpi : Dict.lookup user "pipeline" = some (.obj P))
+    (hnd : C17W.NodupSection kvs) (hwf : Merge.wfDict P = true)
+    (h : checkConf files inputSchemas machineFlags registry user m = .ok (out, m'))
+    (margins : JVal) (m2 : CState) :
+    ∃ m2', checkConf files inputSchemas machineFlags registry
+      (mainSavedDict Pandora.Generated.mainFacts (afterRun Pandora.Generated.runWritesIndicator out) margins) m2 =
+        .ok (afterRun Pandora.Generated.runWritesIndicator out, m2') :=
+  saved_config_replays_any _ files machineFlags user kvs P m m' out hin hpi hnd (Or.inr (by decide)) hwf h
+    Pandora.Generated.mainFacts source_main_facts.1 margins m2 (Or.inr (by decide))
+
+/-- today `run` does write the indicators (the model of §3b is the one in force) -/
+theorem source_run_writes_indicator : Pandora.Generated.runWritesIndicator = true := by decide
 
 /-- without a confidence step nothing is written by `run`: the saved pipeline is `check_conf`'s -/
 theorem runPipeline_id_of_no_confidence (M : Dict)
